@@ -122,34 +122,13 @@ func messageKind(msg string) string {
 
 const hugeResult = 2e5 // digits/bytes of result from which on a slow call is considered result-sized (10^4-digit base ^ 100 = 10^6 digits takes 1-2 s)
 
-func callMayBeHuge(c *Call) bool {
-	switch c.Kind {
-	case "tpl":
-		return templateMayBeHuge(c.Tpl)
-	case "op":
-		if c.Fn == "op:^" && len(c.Args) == 2 {
-			a, okA := approxNumber(c.Args[0])
-			b, okB := approxNumber(c.Args[1])
-			if okA && okB {
-				return powResultSize(a, b) >= hugeResult
-			}
-		}
-		return false
-	}
-	switch c.Fn {
-	case "repeat":
-		if len(c.Args) == 2 {
-			if n, ok := approxNumber(c.Args[1]); ok {
-				cnt, _ := n.Float64()
-				return float64(approxRenderLen(c.Args[0]))*cnt >= hugeResult
-			}
-		}
-	case "foreach", "foreach_value", "filter":
-		// higher-order: result-sized when an amplifier (repeat) is applied with a large count to non-empty items
-		return hasAmplifier(c.Args) && tupleShape(c.Args) == "bignum"
-	}
-	return false
-}
+// callMayBeHuge: NOTHING may take long any more.  Earlier versions allowed a call to trip the watchdog when the
+// result it was computing was itself huge (2 ^ 999999999, repeat("x", 2000000000)): "time bounded by ... the
+// result".  But a result that can never be produced is not a result: such evaluations end with the host out of
+// memory or spinning, which is exactly what the property excludes ("failures (... out-of-range values) are reported
+// as error values ..., never as a crash or hang of the host").  goflow now limits the size of what ^ and repeat
+// produce, so every registered function, operator and template has to answer within the budget.
+func callMayBeHuge(c *Call) bool { return false }
 
 // ---------------------------------------------------------------------------------------------
 
